@@ -259,6 +259,14 @@ def runM {V E : Type} [DecidableEq E] (o : Oracle V E) (caught : CbOutcome → B
 def projM {V E : Type} (q : Nat) (ms : List (Nat × Msg V E)) : List (Msg V E) :=
   (ms.filter (fun m => m.1 == q)).map (·.2)
 
+/-! ### activation (`Dispatcher.handle_activate`, dispatcher.py:279-320) -/
+
+/-- the snapshot sent to a connection that activates: one message per parameter it subscribes to (all exported
+parameters of the module in the order of its accessibles, or the one named in the specifier), each built by
+`make_update` from the cache entry as it is when the message is sent -/
+def snapshot {V E : Type} (es : Nat → Entry V E) (ps : List Nat) : List (Nat × Msg V E) :=
+  ps.map (fun p => (p, mkMsg (es p)))
+
 /-! ### event producers -/
 
 /-- outcome of the driver's `read_<p>` -/
